@@ -100,10 +100,16 @@ def run_boundary(m):
 
 
 def run_det(case, opt):
-    """A fresh mesh per run (the quantifier is over meshes and options, not over re-runs on a used mesh)."""
+    """A fresh mesh per run; with opt["prior"] the mesh first goes through a run with those options."""
     from mouette.processing.features import FeatureEdgeDetector
     from mouette.attributes.attr_corners import corner_angles
     m = build(case)
+    if opt.get("prior"):
+        # the mesh has already been through a detector run with other options (it now carries the attributes
+        # "feature" and possibly "corners" of that run)
+        po = opt["prior"]
+        FeatureEdgeDetector(only_border=po["only_border"], flag_corners=po["flag_corners"],
+                            corner_order=po["corner_order"], compute_feature_graph=po["graph"], verbose=False).run(m)
     det = FeatureEdgeDetector(only_border=opt["only_border"], flag_corners=opt["flag_corners"],
                               corner_order=opt["corner_order"], compute_feature_graph=opt["graph"], verbose=False)
     try:
